@@ -11,6 +11,7 @@ import (
 	"sort"
 	"strings"
 	"sync"
+	"time"
 
 	"github.com/gkampitakis/go-snaps/internal/verifhook/sched"
 )
@@ -348,7 +349,8 @@ func c12Conc(c *vfCtx, cs c12Case) {
 		c.addSet("nontrivial", vfHashJSON(cs))
 	}
 	reported := false
-	st := sched.Explore(cs.Bound, nil, 0, mk, func(x *sched.Exec) bool {
+	stop := func() bool { return !c.deadline.IsZero() && time.Now().After(c.deadline) }
+	st := sched.ExploreUntil(cs.Bound, nil, 0, stop, mk, func(x *sched.Exec) bool {
 		c.count("transitions", int64(len(x.Points)))
 		got := norm()
 		c.addSet("states", vfHash(fmt.Sprint(cs.Seq), cs.OptSet, got))
@@ -366,6 +368,10 @@ func c12Conc(c *vfCtx, cs c12Case) {
 		return true
 	})
 	c.count("schedules", int64(st.Executions))
+	if st.Capped {
+		c.cap("deadline")
+		c.stopped = true
+	}
 	c.outcome(fmt.Sprintf("conc threads=%d bound=%d", len(cs.Seq), cs.Bound))
 }
 
